@@ -1,6 +1,7 @@
 package c07
 
 import (
+	"bytes"
 	"context"
 	"fmt"
 	"math/big"
@@ -369,6 +370,52 @@ func (f *fctx) acceptableC07(cur *channel.State, m client.ChannelUpdateProposal,
 	return false, "unknown message"
 }
 
+// ---------- C01 on the client's machine: the current transaction is never touched by a handler ----------
+
+func txBytes(t channel.Transaction) string {
+	if t.State == nil {
+		return "nil"
+	}
+	var sb strings.Builder
+	var buf bytes.Buffer
+	if err := t.State.Encode(&buf); err != nil {
+		sb.WriteString("unencodable:" + cv.State(t.State))
+	} else {
+		sb.Write(buf.Bytes())
+	}
+	for _, s := range t.Sigs {
+		fmt.Fprintf(&sb, "|%x", []byte(s))
+	}
+	return sb.String()
+}
+
+// currentIntact: after a handler has returned, the channel's current transaction (state encoding and
+// signatures) is byte-identical to the one before, unless the client countersigned `proposed` and the
+// update was completed (then it is exactly the proposed state); and in every case the current state
+// verifies under all its signatures.
+func (f *fctx) currentIntact(before, after snap, proposed *channel.State, signed bool) (bool, string) {
+	if after.Current.State != nil {
+		for i, sig := range after.Current.Sigs {
+			if i >= len(f.params.Parts) {
+				return false, "more signatures than participants on the current state"
+			}
+			if ok, err := channel.Verify(f.params.Parts[i][0], after.Current.State, sig); err != nil || !ok {
+				return false, fmt.Sprintf("signature %d of the current transaction does not verify for the current state (a state nobody signed)", i)
+			}
+		}
+	}
+	if txBytes(before.Current) == txBytes(after.Current) {
+		return true, ""
+	}
+	if signed && proposed != nil && after.Current.State != nil {
+		var a, b bytes.Buffer
+		if after.Current.State.Encode(&a) == nil && proposed.Encode(&b) == nil && bytes.Equal(a.Bytes(), b.Bytes()) {
+			return true, ""
+		}
+	}
+	return false, "the current transaction changed although no update was countersigned and completed"
+}
+
 // ---------- one update-type message ----------
 
 func (sh *shard) execUpd(tc tcase, stranger bool, doProbe bool) {
@@ -526,6 +573,11 @@ func (sh *shard) execUpd(tc tcase, stranger bool, doProbe bool) {
 	replay := map[string]interface{}{"class": tc.class, "message": cv.Msg(msg), "current": stateOrNil(cur), "phase": before.Phase.String(),
 		"funding_interceptors": hx.ListOf(tc.fund, rawIcept), "settlement_interceptors": hx.ListOf(tc.settle, rawIcept),
 		"outcome": o.outcome, "panic": o.pv, "took_ms": took.Milliseconds(), "probe": o.probe}
+	// --- C01 on the client's machine (both properties)
+	if ok, why := f.currentIntact(before, o.after, msg.Base().State, o.signed); !ok && o.dec != 5 {
+		sh.fail(strings.SplitN(tc.site, "/", 2)[0], "state-corrupted", "handling the request corrupted the channel's current state: "+why, replay)
+		f.burnt = true
+	}
 	// --- C07
 	if o.signed && cur != nil {
 		if ok, why := f.acceptableC07(cur, msg, o.asked > 0, tc); !ok {
@@ -606,6 +658,10 @@ func (sh *shard) execValidate(tc tcase, msg client.ChannelUpdateProposal, before
 		if ok, why := f.acceptableC07(cur, msg, false, tc); good && !ok {
 			sh.fail("client.validateVirtualChannelProposal", tc.class, "validation passed for a proposal the client must not countersign: "+why, replay)
 		}
+	}
+	if ok, why := f.currentIntact(before, f.snapshot(), nil, false); !ok && code != 2 {
+		sh.fail("client.validateVirtualChannelProposal", "state-corrupted", "validating the proposal corrupted the channel's current state: "+why, replay)
+		f.burnt = true
 	}
 	sh.count(tc.class+"/validate", []string{"ok", "error", "panic"}[code], tc.class+"/validate/"+fmt.Sprint(code))
 	sh.cases = append(sh.cases, hx.App("HVal", f.ctxTerm(before, nil, nil, false), f.reqTerm(msg), hx.N(uint64(code))))
@@ -920,6 +976,10 @@ func (sh *shard) execSync(tc tcase) {
 			sh.fail(tc.site, tc.class, "the sync handler returned but the machine mutex is held", replay)
 		}
 	}
+	if ok, why := f.currentIntact(before, o.after, nil, false); !ok && o.dec != 5 {
+		sh.fail("client.handleSyncMsg", "state-corrupted", "handling the sync message corrupted the channel's current state: "+why, replay)
+		f.burnt = true
+	}
 	decName := []string{"Drop", "AskUser", "AutoAccept", "Reject", "Reply", "Panic", "Block"}[o.dec]
 	sh.count(tc.class, decName, fmt.Sprintf("%s/%s/%s", tc.class, decName, before.Phase))
 	tx := "None"
@@ -1115,8 +1175,19 @@ func runShard(prop string, seed int64, idx int, n int, slow int, realOpen, unawa
 // (parameters vp, index map with two entries) and returns the position of that sub-allocation.
 func (f *fctx) vsettleContext() (int, *channel.Params) {
 	vp := f.vparams(2, true)
-	cur := f.genState(f.r.Intn(3), false)
+	// mostly parents with two or three locked sub-allocations (of different totals); the settled one
+	// is inserted first, in the middle or last
+	nl := f.r.Intn(3)
+	if f.r.Intn(3) != 0 {
+		nl = 1 + f.r.Intn(2)
+	}
+	cur := f.genState(nl, false)
 	sa := f.randSubAlloc()
+	for _, l := range cur.Locked {
+		for l.Bals[0].Cmp(sa.Bals[0]) == 0 {
+			sa.Bals[0] = new(big.Int).Add(sa.Bals[0], big.NewInt(int64(1+f.r.Intn(9))))
+		}
+	}
 	sa.ID = vp.ID()
 	if f.r.Intn(2) == 0 {
 		sa.IndexMap = []channel.Index{0, 1}
